@@ -690,6 +690,37 @@ pub fn build_mirror(t: &Trial, pre_mem: &[Vec<u8>]) -> Result<Axecutor, String> 
     Ok(ax)
 }
 
+/// The same machine, but region `ext` is one page larger on either side (filled with 0xEE): an address at the
+/// edge of the region lies in the middle of an area here.
+pub fn build_mirror_ext(t: &Trial, pre_mem: &[Vec<u8>], ext: usize) -> Result<Axecutor, String> {
+    let mut ax = Axecutor::new(&pre_mem[R_CODE], CODE, t.rip).map_err(|e| err_first_line(&e))?;
+    for (i, r) in REGIONS.iter().enumerate() {
+        if i == R_CODE {
+            continue;
+        }
+        if i == ext {
+            let mut d = vec![0xEEu8; 0x1000];
+            d.extend_from_slice(&pre_mem[i]);
+            d.extend_from_slice(&[0xEE; 0x1000]);
+            ax.mem_init_area(r.start - 0x1000, d).map_err(|e| err_first_line(&e))?;
+            ax.mem_prot(r.start - 0x1000, r.prot).map_err(|e| err_first_line(&e))?;
+        } else {
+            ax.mem_init_area(r.start, pre_mem[i].clone()).map_err(|e| err_first_line(&e))?;
+            ax.mem_prot(r.start, r.prot).map_err(|e| err_first_line(&e))?;
+        }
+    }
+    for (i, r) in GPR64.iter().enumerate() {
+        ax.reg_write_64(sr(*r), t.gpr[i]).map_err(|e| err_first_line(&e))?;
+    }
+    for i in 0..16u32 {
+        ax.reg_write_128(sr(Register::XMM0 + i), t.xmm[i as usize]).map_err(|e| err_first_line(&e))?;
+    }
+    ax.verif_set_rflags(t.flags & (F_STATUS | F_DF));
+    ax.write_fs(t.fs);
+    ax.write_gs(t.gs);
+    Ok(ax)
+}
+
 pub fn run_emu(t: &Trial, pre_mem: &[Vec<u8>]) -> EmuPost {
     let built = catch(|| build_mirror(t, pre_mem));
     let ax = match built {
